@@ -75,7 +75,7 @@ NOTES = {
     "C03": {
         "text": "Kernel-checked corollaries of the C01 refinement: after any history from a zeroed n-byte buffer the raw bytes are exactly flatten(type ++ LE32 length ++ value) of the logical entry list "
                 "followed by zeros up to n (total size preserved by every step, so grown space comes out of the zero tail and released space returns to it as zeros); 12 bytes of overhead per entry; "
-                "LE byte j of the length is n/256^j%256.",
+                "LE byte j of the length is n/256^j%256. The stream runs one history in three with 2-4 consecutive mutations on ONE open handle (multi), the rest with a fresh handle per operation.",
         "design_ref": "§5 C03",
         "note": TB + "the README's layout description is compared by the stream's independent encoder, not parsed.",
         "technique": "Lean 4 theorem (corollary of the refinement, all histories/sizes) + byte-for-byte differential check against an independent encoder",
@@ -161,6 +161,8 @@ NOTES = {
                 "the model of the generic parser returns the same mint/owner/amount (supply/decimals); uninitialised never parses; base layouts parse identically under both ids; and from states: every "
                 "well-formed initialised account / mint state (any keys, amounts, option tags, initialised or frozen) packed by the reference codec round-trips through it and parses to its fields under both "
                 "ids, and under Token-2022 also behind the account-type marker with extension data of any length (355 excepted). "
+                "C16_length_frame / C17_length_frame: on a buffer of 357 bytes or more every function of the parser and of the reference codecs returns what it returns on the buffer's first 166 bytes "
+                "followed by 191 zeros, which is how the stream's 10 KiB .. 10 MiB .. 4 GiB buffers are evaluated in the model. "
                 "The model is tied to /repo by regenerated offsets/ids and by a differential stream that also validates the reference-codec model against the real interface crates.",
         "design_ref": "§5 C16",
         "note": TB + "the reference codecs (spl-token-interface, spl-token-2022-interface) are modelled in SplModel/TokenRef.lean and validated by the stream, not verified.",
@@ -168,7 +170,7 @@ NOTES = {
     },
     "C17": {
         "text": "Kernel-checked exact characterisation of generic_token::{Account,Mint}::unpack on every byte string and program id (no panic branch, mutual exclusion, "
-                "unknown ids, exact lengths, 355/marker rule, returned bytes = documented offsets). Unchecked getters are modelled with panicking slice primitives, so totality is a theorem, not a convention.",
+                "unknown ids, exact lengths, 355/marker rule, returned bytes = documented offsets), of the ten trait-level checked getters, and the length frame (nothing past byte 165 is read, no length beyond 356 is special: C17_length_frame). Unchecked getters are modelled with panicking slice primitives, so totality is a theorem, not a convention.",
         "design_ref": "§5 C17",
         "note": TB + "the eight boolean predicates (validity of the four implementors, initialised-byte tests, known-id test) are additionally regenerated from the Rust source expression by expression on every run and proved equal to the model functions (C17_source_predicates), so for them the theorems are re-checked against the current code; bytemuck::from_bytes on a 32-byte align-1 slice is assumed infallible.",
         "technique": "Lean 4 theorem (unbounded, kernel-checked) + translator-regenerated constants + differential correspondence with oracle search",
